@@ -1,0 +1,7 @@
+//go:build !verif
+// +build !verif
+
+package deflate
+
+// verifBlock is a verification hook; it does nothing unless built with the tag `verif`.
+func (h *huffmanOnly) verifBlock() {}
